@@ -1,3 +1,75 @@
+mod common;
+mod hist;
+mod runner;
+
+use runner::{Engine, Tier};
+use std::path::PathBuf;
+
+fn engine_for(prop: &str) -> Box<dyn Engine> {
+    match prop {
+        "C07" => Box::new(hist::HistEngine { flavor: hist::Flavor::C07 }),
+        "C08" => Box::new(hist::HistEngine { flavor: hist::Flavor::C08 }),
+        "C13" => Box::new(hist::HistEngine { flavor: hist::Flavor::C13 }),
+        "C18" => Box::new(hist::HistEngine { flavor: hist::Flavor::C18 }),
+        _ => {
+            eprintln!("unknown property {}", prop);
+            std::process::exit(2)
+        }
+    }
+}
+
 fn main() {
-    println!("lvmc");
+    let args: Vec<String> = std::env::args().collect();
+    if args.len() < 3 {
+        eprintln!("usage: lvmc check <prop> <tier> | shard <prop> <tier> <i> <n> <out> | replay <prop> <file>");
+        std::process::exit(2);
+    }
+    let code = match args[1].as_str() {
+        "check" => {
+            let e = engine_for(&args[2]);
+            runner::run_check(e.as_ref(), Tier::parse(&args[3]))
+        }
+        "shard" => {
+            let e = engine_for(&args[2]);
+            runner::run_shard_main(
+                e.as_ref(),
+                Tier::parse(&args[3]),
+                args[4].parse().unwrap(),
+                args[5].parse().unwrap(),
+                &PathBuf::from(&args[6]),
+            );
+            0
+        }
+        "replay" => {
+            let e = engine_for(&args[2]);
+            runner::run_replay_main(e.as_ref(), &PathBuf::from(&args[3]))
+        }
+        "adhoc" => {
+            // lvmc adhoc <C07|C08|C13|C18> "<desc>"  -> runs the history checking every step
+            common::install_panic_hook();
+            common::install_flush_counter();
+            let flavor = match args[2].as_str() {
+                "C07" => hist::Flavor::C07,
+                "C08" => hist::Flavor::C08,
+                "C13" => hist::Flavor::C13,
+                _ => hist::Flavor::C18,
+            };
+            let case = hist::adhoc_case(flavor, Tier::Quick, &args[3]);
+            println!("{}", serde_json::to_string(&case.opts).unwrap());
+            let o = hist::run_history(&case, 1);
+            match o.violation {
+                Some(v) => {
+                    println!("VIOLATION sig={}\n{}", v.sig, v.what);
+                    1
+                }
+                None => {
+                    println!("ok");
+                    0
+                }
+            }
+        }
+        _ => 2,
+    };
+    // database threads may still be parked; do not wait for them
+    std::process::exit(code);
 }
